@@ -788,6 +788,9 @@ class Manager:
         # TODO: Refactor this method.
 
         value = None
+        # Events fired while stepping the task are effects of its event
+        # (see _fire()), just like those fired by plain handlers.
+        self._currently_handling = event
         try:
             value = next(task)
             if isinstance(value, CallValue):
@@ -869,6 +872,8 @@ class Manager:
                 self.fire(event.child('failure', event, err), *event.channels)
 
             self.fire(exception(*err, handler=None, fevent=event))
+        finally:
+            self._currently_handling = None
 
     def tick(self, timeout=-1):
         """
